@@ -9,6 +9,14 @@ use gamedig::verif_hook::{Dec, VBuffer};
 
 pub fn entries() -> Vec<(&'static str, crate::EntryFn)> { vec![("unreal2", entry_unreal2), ("u2str", entry_u2str)] }
 
+crate::impl_view_dump!(
+    gamedig::protocols::unreal2::Response,
+    "protocols/unreal2/types.rs",
+    "Response",
+    "protocols/unreal2/types.rs",
+    "Player"
+);
+
 fn show_info(i: &ServerInfo) -> String {
     format!(
         "I{{{}}}",
